@@ -7,6 +7,9 @@ from .poly import Poly, FV, as_poly, P
 import re as _re
 
 
+from .report import Report
+
+
 def site_of(mod, name):
     f, l = mod.fn_loc(name)
     return '%s:%s' % (front.rel(f), l)
@@ -61,6 +64,33 @@ def check_overload(rep, mod, cfg, name, specfn, alias=None, extents_fn=None, sam
                 for k, v in sorted(dec.items(), key=str)) + ']')
             _compare(rep, mod, cfg, name, dem, ptag, site, specfn, eff, ctx, values, alias, sample, atom_subst)
     except (Incomplete, IRError, NoSpec) as e:
+        if 'trunc of symbolic value' in str(e) and not alias:
+            # the routine narrows a shape-derived value: the symbolic run cannot follow it; probe concrete shape values on
+            # both sides of 2^31 and 2^32 instead (a refutation is then a concrete shape; passing probes decide nothing more)
+            scal = [p.name for p in params0 if p.irty[0] == 'i' and p.dty != 'E']
+            probes = [3, (1 << 31) // 3 + 1, (1 << 31) - 1, 1 << 31, (1 << 31) + 5, (1 << 32) - 1, 1 << 32, (1 << 32) + 3, (1 << 33) + 1]
+            failed = False
+            for v in probes:
+                rp = Report(rep.pid, rep.tier)
+                ctx2 = contracts.Ctx()
+                summ2, _ = contracts.wrapper_summaries(mod, ctx2)
+                summ2.pop(name, None)
+                vals = {n_: v for n_ in scal}
+                try:
+                    for dec, eff, values, atom_subst in explore_paths(mod, name, summ2, ctx2, params0, alias=alias, extents=ext, values0=vals):
+                        _compare(rp, mod, cfg, name, dem, tag + ' %s' % vals, site, specfn, eff, ctx2, values, alias, False, atom_subst)
+                except Sink as e2:
+                    rp.refute('safety:' + tag, 'wrapper-safety', sink_site(e2, site), '%s with %s' % (e2, vals))
+                except (Incomplete, IRError, NoSpec):
+                    continue
+                bad = [o for o in rp.obl if o['status'] == 'refuted']
+                if bad:
+                    failed = True
+                    rep.refute('value:' + tag, 'wrapper-value', site, 'with %s: %s' % (vals, bad[0]['detail'][:300]), witness=vals)
+                    break
+            if not failed:
+                rep.incomplete('value:' + tag, 'wrapper-value', site, '%s (a shape value is narrowed; probes at 2^31 / 2^32 agree with the specification, all other values are not decided)' % e)
+            return
         rep.incomplete('value:' + tag, 'wrapper-value', site, str(e))
     except Sink as e:
         rep.refute('safety:' + tag, 'wrapper-safety', sink_site(e, site), '%s (in %s)' % (e, ' <- '.join(e.stack[:3])))
